@@ -21,6 +21,7 @@
 #include <signal.h>
 #include <dlfcn.h>
 #include <sys/stat.h>
+#include <sys/wait.h>
 
 #include "IPhreeqc.hpp"
 #include "IPhreeqc.h"
@@ -36,6 +37,7 @@
 
 static int PROTO = 1;
 static bool in_op = false;
+static int fork_depth = 0;
 
 static void pwrite_all(const std::string &s) {
   size_t off = 0;
@@ -286,13 +288,33 @@ static std::string api_call(const Target &T, Bind b, const std::string &fn, cons
   throw std::runtime_error("unknown function " + fn);
 }
 
-// ---------------------------------------------------------------- observation of one instance (C or C++ binding)
-// flags: g getters/switches, u per-user-number info (iterates the current user number and restores it),
-//        t tables, s strings, c components, a accumulated lines (cpp)
+// ---------------------------------------------------------------- observation of one instance through one binding
+// flags: g getters/switches/file names, s strings (C/C++ only), l line arrays of every stream, c components,
+//        a accumulated lines (cpp), u per-user-number info (iterates the current user number and restores it), t tables.
+// Binding f uses the *F functions with their 1-based indices and caller-supplied buffers of FLEN characters; string
+// results then appear as {"s":buffer,"len":reported length}.
+static const int FLEN = 400;
 static std::string observe(const Target &T, Bind b, const std::string &flags) {
   std::vector<Tok> none;
+  const int base = (b == B_F) ? 1 : 0;
   auto call = [&](const char *fn) { return api_call(T, b, fn, none); };
   auto call1 = [&](const char *fn, int n) { std::vector<Tok> a{Tok{std::to_string(n), false}}; return api_call(T, b, fn, a); };
+  auto calln = [&](const char *fn) {  // file-name style getter
+    if (b != B_F) return call(fn);
+    std::vector<Tok> a{Tok{std::to_string(FLEN), false}};
+    return api_call(T, b, fn, a);
+  };
+  auto line = [&](const char *fn, int i) {
+    std::vector<Tok> a{Tok{std::to_string(i + base), false}};
+    if (b == B_F) a.push_back(Tok{std::to_string(FLEN), false});
+    return api_call(T, b, fn, a);
+  };
+  auto lines = [&](const char *fn, const char *cnt) {
+    int n = atoi(call(cnt).c_str());
+    std::string l = "[";
+    for (int i = 0; i < n; i++) { if (i) l += ","; l += line(fn, i); }
+    return l + "]";
+  };
   std::string r = "{";
   bool first = true;
   auto put = [&](const std::string &k, const std::string &v) { if (!first) r += ","; first = false; r += "\"" + k + "\":" + v; };
@@ -305,24 +327,26 @@ static std::string observe(const Target &T, Bind b, const std::string &flags) {
                               "GetWarningStringLineCount", "GetLogStringLineCount", "GetDumpStringLineCount", "GetSelectedOutputStringLineCount"};
     for (auto g : G) put(g, call(g));
     static const char *N[] = {"GetOutputFileName", "GetErrorFileName", "GetLogFileName", "GetDumpFileName", "GetSelectedOutputFileName"};
-    for (auto g : N) put(g, call(g));
+    for (auto g : N) put(g, calln(g));
   }
-  if (has('s')) {
+  if (has('s') && b != B_F) {
     static const char *S[] = {"GetOutputString", "GetErrorString", "GetWarningString", "GetLogString", "GetDumpString", "GetSelectedOutputString"};
     for (auto g : S) put(g, call(g));
   }
-  if (has('c')) {
-    int n = atoi(call("GetComponentCount").c_str());
-    std::string l = "[";
-    for (int i = 0; i < n; i++) { if (i) l += ","; l += call1("GetComponent", i); }
-    put("components", l + "]");
+  if (has('l')) {
+    put("OutputLines", lines("GetOutputStringLine", "GetOutputStringLineCount"));
+    put("ErrorLines", lines("GetErrorStringLine", "GetErrorStringLineCount"));
+    put("WarningLines", lines("GetWarningStringLine", "GetWarningStringLineCount"));
+    put("LogLines", lines("GetLogStringLine", "GetLogStringLineCount"));
+    put("DumpLines", lines("GetDumpStringLine", "GetDumpStringLineCount"));
   }
-  if (has('a') && T.obj) put("accumulated", jstr(T.obj->GetAccumulatedLines()));
+  if (has('c')) put("components", lines("GetComponent", "GetComponentCount"));
+  if (has('a') && T.obj && b != B_F) put("accumulated", jstr(T.obj->GetAccumulatedLines()));
   if (has('u') || has('t')) {
     int cur = atoi(call("GetCurrentSelectedOutputUserNumber").c_str());
     int cnt = atoi(call("GetSelectedOutputCount").c_str());
     std::vector<int> users;
-    for (int i = 0; i < cnt; i++) users.push_back(atoi(call1("GetNthSelectedOutputUserNumber", i).c_str()));
+    for (int i = 0; i < cnt; i++) users.push_back(atoi(call1("GetNthSelectedOutputUserNumber", i + base).c_str()));
     std::string ul = "[";
     for (size_t i = 0; i < users.size(); i++) { if (i) ul += ","; ul += jint(users[i]); }
     put("users", ul + "]");
@@ -334,20 +358,27 @@ static std::string observe(const Target &T, Bind b, const std::string &flags) {
       int cols = atoi(call("GetSelectedOutputColumnCount").c_str());
       sel += "\"" + jint(users[i]) + "\":{\"rows\":" + jint(rows) + ",\"cols\":" + jint(cols);
       sel += ",\"fileon\":" + call("GetSelectedOutputFileOn") + ",\"stron\":" + call("GetSelectedOutputStringOn");
-      sel += ",\"fname\":" + call("GetSelectedOutputFileName");
+      sel += ",\"fname\":" + calln("GetSelectedOutputFileName");
       sel += ",\"nlines\":" + call("GetSelectedOutputStringLineCount");
-      if (has('s')) sel += ",\"str\":" + call("GetSelectedOutputString");
+      if (has('s') && b != B_F) sel += ",\"str\":" + call("GetSelectedOutputString");
+      if (has('l')) sel += ",\"lines\":" + lines("GetSelectedOutputStringLine", "GetSelectedOutputStringLineCount");
       if (has('t')) {
+        int trows = (b == B_F && cols > 0) ? rows + 1 : rows;  // RowCountF excludes the heading row
         sel += ",\"table\":[";
-        for (int rr = 0; rr < rows; rr++) {
+        for (int rr = 0; rr < trows; rr++) {
           if (rr) sel += ",";
           sel += "[";
           for (int cc = 0; cc < cols; cc++) {
             if (cc) sel += ",";
-            VAR v; ::VarInit(&v);
-            long rc = (b == B_CPP) ? (long)T.obj->GetSelectedOutputValue(rr, cc, &v) : (long)::GetSelectedOutputValue(T.id, rr, cc, &v);
-            if (rc != 0 && v.type != TT_ERROR) sel += "{\"rc\":" + jint(rc) + "}"; else sel += jvar(v);
-            ::VarClear(&v);
+            if (b == B_F) {
+              std::vector<Tok> a{Tok{std::to_string(rr), false}, Tok{std::to_string(cc + 1), false}, Tok{std::to_string(FLEN), false}};
+              sel += api_call(T, b, "GetSelectedOutputValueF", a);
+            } else {
+              VAR v; ::VarInit(&v);
+              long rc = (b == B_CPP) ? (long)T.obj->GetSelectedOutputValue(rr, cc, &v) : (long)::GetSelectedOutputValue(T.id, rr, cc, &v);
+              if (rc != 0 && v.type != TT_ERROR) sel += "{\"rc\":" + jint(rc) + "}"; else sel += jvar(v);
+              ::VarClear(&v);
+            }
           }
           sel += "]";
         }
@@ -357,7 +388,6 @@ static std::string observe(const Target &T, Bind b, const std::string &flags) {
     }
     put("sel", sel + "}");
     call1("SetCurrentSelectedOutputUserNumber", cur);
-    // restoring an invalid (e.g. never-set) current number can fail; report what it is now
     put("cur_after", call("GetCurrentSelectedOutputUserNumber"));
   }
   return r + "}";
@@ -596,6 +626,22 @@ int main(int argc, char **argv) {
     std::vector<Tok> t = split(line);
     if (t.empty() || t[0].s.empty()) { pwrite_all("{}\n"); continue; }
     if (t[0].s == "quit") break;
+    if (t[0].s == "fork") {  // child continues with a copy of the whole process state; parent sleeps until the child ends
+      fflush(stdout);
+      pid_t c = fork();
+      if (c < 0) { pwrite_all("{\"exc\":\"fork failed\"}\n"); continue; }
+      if (c == 0) { fork_depth++; pwrite_all("{\"forked\":" + jint(fork_depth) + "}\n"); continue; }
+      int st = 0;
+      waitpid(c, &st, 0);
+      if (WIFEXITED(st) && WEXITSTATUS(st) == 0) pwrite_all("{\"endfork\":" + jint(fork_depth) + "}\n");
+      else { pwrite_all("{\"fatal\":\"forked child died status " + jint(st) + "\"}\n"); _exit(74); }
+      continue;
+    }
+    if (t[0].s == "endfork") {
+      if (fork_depth == 0) { pwrite_all("{\"exc\":\"not in a fork\"}\n"); continue; }
+      fflush(stdout);
+      _exit(0);
+    }
     std::string r;
     in_op = true;
     try {
